@@ -126,6 +126,19 @@ def run_single(gen):
         c.state["error"][0] = text
         c.state["ac"][0]["error"] = code
         step(f"at{gen} ac0 error {code} text {text!r}", f"at{gen}:error-info", lambda: c.ac_status_frame(only=[0]))
+    # details of an earlier, cleared error must not be shown for a later error whose details are not known yet
+    c.state["error"][0] = "ER: old"
+    c.state["ac"][0]["error"] = 5
+    step(f"at{gen} ac0 error 5 with text", f"at{gen}:error-info", lambda: c.ac_status_frame(only=[0]))
+    c.state["ac"][0]["error"] = 0
+    step(f"at{gen} ac0 error cleared", f"at{gen}:error-info", lambda: c.ac_status_frame(only=[0]))
+    c.answer_hook = lambda kind, fr, answers: [] if kind == "req-error" else answers     # console does not answer
+    c.state["ac"][0]["error"] = 9
+    c.state["error"][0] = None           # nothing has been reported for error 9
+    step(f"at{gen} ac0 new error 9, details not yet reported", f"at{gen}:error-info:stale-details", lambda: c.ac_status_frame(only=[0]))
+    c.answer_hook = None
+    c.state["ac"][0]["error"] = 0
+    step(f"at{gen} ac0 error cleared again", f"at{gen}:error-info", lambda: c.ac_status_frame(only=[0]))
     # console version / update sign
     for upd, vers in itertools.product([False, True], [["1.0.3"], ["1.2.3", "1.2.2"], ["9.9.9"]]):
         w.inst["update"], w.inst["versions"] = upd, vers
